@@ -101,8 +101,11 @@ def run_net(inst):
     res["counters"]["tables_checked"] = 1
     # ---------------- simulation: network rows vs cell alone
     smn = simenc.SymModule(net)
+    def ENC(fn, *a):
+        r_, it_, _ = _enc(fn, a, vs, stub, [net] + cells); its.append(it_); return r_
     try:
-        rn, it, _ = _enc(lambda arrs: jx.integrate(net, param_state=smn.pstate(arrs), **kw), (smn.arrays(),), vs, stub, [net] + cells); its.append(it)
+        RN = simenc.Run(lambda arrs: jx.integrate(net, param_state=smn.pstate(arrs), **kw), (smn.arrays(),), ENC)
+        rn = RN.sym
     except AssertionError as ex:
         res["counters"]["refused"] = 1
         res["stats"] = dict(smt.STATS); res["sample"] = {"instance": inst, "refused": str(ex)[:100]}
@@ -111,7 +114,6 @@ def run_net(inst):
         viol("network_traces", f"{type(ex).__name__}: {str(ex)[:160]}")
         res["stats"] = dict(smt.STATS)
         return res
-    rn = sym.to_obj(rn)
     off = 0
     for ci, c in enumerate(cells):
         smc = simenc.SymModule(c)
@@ -125,18 +127,14 @@ def run_net(inst):
                 ok = False; viol("tables_preserved", f"cell {ci}: column {k} rows {list(rows)} not defined at network rows offset {off}"); break
         if not ok:
             off += len(c.nodes); continue
-        rc, it, _ = _enc(lambda a_, c=c, smc=smc: jx.integrate(c, param_state=smc.pstate(a_), **kw), (arrs,), vs, stub, [net] + cells); its.append(it)
-        rc = sym.to_obj(rc)
-        sub = rn[off:off + len(c.nodes)]
-        if sub.shape != rc.shape:
-            viol("cell_in_network_equals_alone", f"cell {ci}: shapes {sub.shape} vs {rc.shape}")
-        else:
-            verdict, info = equiv.decide_equal(list(zip(sub.reshape(-1), rc.reshape(-1))), f"C12/net/{ci}", timeout=timeout, rng=rng, counters=res["counters"], resolver=stub.resolver, opaque_prefix="sp")
-            res["counters"][f"net_vs_alone_{verdict}"] = res["counters"].get(f"net_vs_alone_{verdict}", 0) + 1
-            if verdict == "differs":
-                viol("cell_in_network_equals_alone", f"cell {ci} ({kinds[ci]}) simulated inside the synapse-free network differs from the cell alone (numerically different at a sampled symbolic point)")
-            elif verdict not in ("structural", "unsat"):
-                res["inconclusive"].append({"instance": inst, "query": f"net_vs_alone/{ci}", "reason": verdict})
+        RC = simenc.Run(lambda a_, c=c, smc=smc: jx.integrate(c, param_state=smc.pstate(a_), **kw), (arrs,), ENC)
+        lo_, hi_ = off, off + len(c.nodes)
+        verdict, info = equiv.decide_runs(RN, RC, lambda x, y, lo_=lo_, hi_=hi_: (equiv.flat(x[lo_:hi_]), equiv.flat(y)), f"C12/net/{ci}", timeout=timeout, rng=rng, counters=res["counters"], resolver=stub.resolver, opaque_prefix="sp")
+        res["counters"][f"net_vs_alone_{verdict}"] = res["counters"].get(f"net_vs_alone_{verdict}", 0) + 1
+        if verdict in ("differs", "shape"):
+            viol("cell_in_network_equals_alone", f"cell {ci} ({kinds[ci]}) simulated inside the synapse-free network differs from the cell alone (verdict {verdict}; real API relative deviation {(info or {}).get('_real_api_rel_dev')})")
+        elif verdict not in ("structural", "unsat"):
+            res["inconclusive"].append({"instance": inst, "query": f"net_vs_alone/{ci}", "reason": verdict})
         off += len(c.nodes)
     res["functions"] = sorted(set().union(*[i.functions for i in its])) if its else []
     for i in its:
@@ -164,8 +162,9 @@ def run_small(inst):
     def viol(clause, what):
         res["violations"].append({"signature": {"clause": clause}, "what": f"{inst['what']} {solver}/{vs}: {what}", "replay": {"inst": inst, "clause": clause}})
     def sim(m, arrs, sm, mods):
-        r, it, _ = _enc(lambda a_: jx.integrate(m, param_state=sm.pstate(a_), **kw), (arrs,), vs, stub, mods); its.append(it)
-        return sym.to_obj(r)
+        def ENC(fn, *a):
+            r_, it_, _ = _enc(fn, a, vs, stub, mods); its.append(it_); return r_
+        return simenc.Run(lambda a_: jx.integrate(m, param_state=sm.pstate(a_), **kw), (arrs,), ENC)
     if inst["what"] in ("cell_vs_branch", "branch_vs_comp"):
         if inst["what"] == "cell_vs_branch":
             lo = jx.Branch([comp] * 3); lo.insert(HH()); lo.comp(1).insert(Leak())
@@ -179,9 +178,9 @@ def run_small(inst):
             viol("tables_preserved", f"columns/rows differ: {sl.keys()} vs {sh.keys()}")
         else:
             a, b = sim(lo, sl.arrays(), sl, [lo, hi]), sim(hi, sl.arrays(), sh, [lo, hi])
-            verdict, _ = equiv.decide_equal(list(zip(a.reshape(-1), b.reshape(-1))), f"C12/{inst['what']}", timeout=timeout, rng=rng, counters=res["counters"], resolver=stub.resolver, opaque_prefix="sp")
+            verdict, _ = equiv.decide_runs(a, b, lambda x, y: (equiv.flat(x), equiv.flat(y)), f"C12/{inst['what']}", timeout=timeout, rng=rng, counters=res["counters"], resolver=stub.resolver, opaque_prefix="sp")
             res["counters"][f"wrap_{verdict}"] = 1
-            if verdict == "differs": viol(inst["what"], "wrapped module simulates differently from its single constituent")
+            if verdict in ("differs", "shape"): viol(inst["what"], "wrapped module simulates differently from its single constituent")
             elif verdict not in ("structural", "unsat"): res["inconclusive"].append({"instance": inst, "query": inst["what"], "reason": verdict})
     else:
         # sibling permutation: children listed in the other order; the result must be the permuted one
@@ -202,10 +201,10 @@ def run_small(inst):
                 ok = False; viol("sibling_permutation", f"column {k} is defined on different rows after permuting siblings"); break
         if ok:
             a = sim(c1, s1.arrays(), s1, [c1, c2]); b = sim(c2, arrs2, s2, [c1, c2])
-            pairs = [(a[perm[r], t], b[r, t]) for r in range(6) for t in range(a.shape[1])]
-            verdict, _ = equiv.decide_equal(pairs, "C12/siblings", timeout=timeout, rng=rng, counters=res["counters"], resolver=stub.resolver, opaque_prefix="sp")
+            sel_ = lambda x, y: ([x[perm[r], t] for r in range(6) for t in range(np.shape(x)[1])], [y[r, t] for r in range(6) for t in range(np.shape(y)[1])])
+            verdict, _ = equiv.decide_runs(a, b, sel_, "C12/siblings", timeout=timeout, rng=rng, counters=res["counters"], resolver=stub.resolver, opaque_prefix="sp")
             res["counters"][f"siblings_{verdict}"] = 1
-            if verdict == "differs": viol("sibling_permutation", "listing sibling branches in the other order changes the results beyond the permutation")
+            if verdict in ("differs", "shape"): viol("sibling_permutation", "listing sibling branches in the other order changes the results beyond the permutation")
             elif verdict not in ("structural", "unsat"): res["inconclusive"].append({"instance": inst, "query": "siblings", "reason": verdict})
     res["functions"] = sorted(set().union(*[i.functions for i in its])) if its else []
     for i in its:
